@@ -63,6 +63,7 @@ func checkC16(e *Engine, r *Report) {
 		"R6 pool construction agreement: every build*Pool creates one node for the unit id it was given with the parent it was given, takes the pool's CPUs from that same unit's hardware accessor, hands the same node and CPU set to getCpuSupply and getMemSupply and stores the results in that node; child pools are built for the ids enumerated by the parent unit's own accessor, with the new node as their parent, and only when there is more than one child (redundant levels omitted); the virtual root exists only with several sockets and is the policy's root, otherwise the first socket is",
 		"R11 supply partition (shared with C01): isolated, reserved and sharable sets of a pool are pairwise disjoint, cover cpus ∩ available exactly, and the free supply is a clone",
 		"R2 memory attachment: the root pool takes every node that has memory; any other pool takes the nodes sharing a CPU with it plus the CPU-less PMEM/HBM nodes one of whose closest CPU-bearing DRAM nodes it already holds; a memory-less NUMA node gets no pool",
+		"round 4: checkConstraints reads only sets stored earlier in the same call and does not replace them before a successful return; it refuses a reserved cpuset outside the available CPUs, mixing isolated and normal CPUs, or with several isolated CPUs; splitMemsByType puts each node into the result of its own type only; getMemSupply adds each class of special memory to the set of that class",
 	}
 	r.NotDecided = []string{"that the parsers turn every sysfs text into the right numbers and sets (value-level)", "hardware containment facts (a die's CPUs are a subset of its package's, sibling units are disjoint): properties of the machine description, assumed", "memory sizes and the DRAM/PMEM/HBM classification heuristic", "that child memory sets are subsets of the parent's (follows from containment of CPU sets, a hardware fact)"}
 	r.Assumptions = []string{"sysfs describes a consistent machine (threads ⊆ core ⊆ die ⊆ package, one node per CPU)"}
